@@ -36,7 +36,8 @@ CLAIM = dict(
     technique="Lean 4 theorems over a hand-written model + differential correspondence over histories + Lean spec as oracle")
 
 THEOREMS = ["consts_documented", "sv_table_ok", "boot_sequence", "unswap_concat", "config_area",
-            "history_independent", "state_unchanged", "leak_witness"]
+            "struct_pack_spec", "returned_defaults", "boot_meets_spec", "state_unchanged",
+            "history_independent", "history_meets_spec", "fresh_process_default", "leak_witness"]
 
 RULE = ("histories of 1-6 boot() calls from one freshly loaded module: hosts/ports vary, images are the bundled "
         "scamp.boot or random byte strings (every block count 1..32 in the thorough tier, lengths at block edges, "
@@ -103,7 +104,7 @@ def gen_image(rng, force_len=None):
 
 def gen_table(rng):
     """synthetic struct table: list fields [name, pypack, offset, printf, default, length]"""
-    kind = rng.choice(["wf", "wf", "wf", "overlap", "overflow", "unpackable", "small", "noclock"])
+    kind = rng.choice(["wf"] * 9 + ["overlap", "overlap", "overflow", "unpackable", "small", "noclock"])
     size = rng.choice([128, 132, 160, 256, 300])
     names = ["unix_time", "boot_sig", "root_chip", "hw_ver", "led0", "boot_delay"]
     packs = {"unix_time": "I", "boot_sig": "I", "root_chip": "B", "hw_ver": "B", "led0": "I", "boot_delay": "B"}
@@ -153,7 +154,7 @@ def struct_text(table, rng):
 def gen_value(rng, pack):
     lo, hi = RANGE.get(pack, (0, 255))
     r = rng.random()
-    if r < 0.06:
+    if r < 0.025:
         return rng.choice([hi + 1, lo - 1, hi + rng.randrange(1, 1000), -1 if lo == 0 else lo - 5, 2 ** 32, 2 ** 40])
     if r < 0.3:
         return rng.choice([lo, hi, 0, 1])
@@ -166,7 +167,7 @@ def gen_opts(rng, table, allow_reserved):
     d = []
     for f in rng.sample(fields, min(len(fields), rng.choice([0, 1, 1, 2, 3, 5]))):
         d.append([f[0], gen_value(rng, f[1])])
-    if rng.random() < 0.04:
+    if rng.random() < 0.025:
         d.insert(rng.randrange(len(d) + 1), [rng.choice(["bogus", "hw_version", "led2"]), 1])
     return d
 
@@ -204,7 +205,7 @@ def gen_history(rng, force_len=None):
             if rng.random() < 0.6:
                 c["kwargs"] = gen_opts(rng, tab, False)
         t = rng.choice([0, 1, 1443571200, 1700000000 + rng.randrange(10 ** 8), 2 ** 32 - 1,
-                        rng.randrange(2 ** 32)] + ([2 ** 32, 2 ** 32 + 5] if rng.random() < 0.1 else []))
+                        rng.randrange(2 ** 32)] + ([2 ** 32, 2 ** 32 + 5] if rng.random() < 0.06 else []))
         c["t1"] = t
         c["t2"] = t + rng.choice([0, 0, 1, 1, 2])
         if c["host"].startswith("127.") and rng.random() < 0.5:
@@ -608,7 +609,7 @@ def run(ctx):
     prepare(ctx)
     rng = ctx.rng
     cases = load_corpus() + fixed_cases()
-    n = ctx.scale(40, 2000)
+    n = ctx.scale(150, 2000)
     if ctx.extended:
         n *= 4
     if not ctx.quick:
